@@ -353,3 +353,46 @@ func init() {
 		r.Floor("C02.6", 1)
 	})
 }
+
+func init() {
+	reg := registry["C02"]
+	reg.Meta.Rules["C02.7"] = "a handle with a cached header follows the storage transition: after a successful cached-header write, DatasetWriter.WriteAttribute takes the Attribute Info message (if one appeared) into its dense-storage state"
+	reg.Rules = append(reg.Rules, func(c *Ctx, r *Result) {
+		fn := c.Fn(r, "hdf5.DatasetWriter.WriteAttribute")
+		if fn == nil {
+			return
+		}
+		var cached *ssa.Call
+		for _, site := range callsIn(fn) {
+			if c.calleeName(site) == "hdf5.writeAttributeWithCachedHeader" {
+				cached, _ = site.(*ssa.Call)
+			}
+		}
+		if cached == nil {
+			r.Undec("C02.7", c.Name(fn)+"#dense-state-refreshed-after-transition", c.Pos(fn.Pos()), "no cached-header write path")
+			r.Floor("C02.7", 0)
+			return
+		}
+		ok := false
+		var at ssa.Instruction = cached
+		for _, fs := range c.DirectFieldStores(fn) {
+			if fs.Fn != fn || fs.Key != "hdf5.DatasetWriter.denseAttrInfo" {
+				continue
+			}
+			st, isSt := fs.In.(*ssa.Store)
+			if !isSt || !instrDominates(cached, st) {
+				continue
+			}
+			// value comes from ParseAttributeInfoMessage
+			v := st.Val
+			if ex, isEx := v.(*ssa.Extract); isEx {
+				if call, isCall := ex.Tuple.(*ssa.Call); isCall && c.calleeName(call) == "core.ParseAttributeInfoMessage" {
+					ok = true
+					at = st
+				}
+			}
+		}
+		r.Check(ok, "C02.7", c.Name(fn)+"#dense-state-refreshed-after-transition", c.InstrPos(at), "after writeAttributeWithCachedHeader succeeded, the handle's denseAttrInfo is set from the Attribute Info message of the cached header (otherwise the handle keeps writing compact messages next to the dense storage)")
+		r.Floor("C02.7", 1)
+	})
+}
